@@ -394,7 +394,29 @@ impl<'tcx> Dumper<'tcx> {
                     ("ptrs", jarr(ptrs)),
                 ])
             }
-            Some(GlobalAlloc::Static(def)) => jobj(vec![("static", jstr(self.path(def)))]),
+            Some(GlobalAlloc::Static(def)) => {
+                // an immutable static without interior mutability is a named constant: its initial value is recorded
+                let mut f: Vec<(&str, J)> = vec![("static", jstr(self.path(def)))];
+                let sty = self.tcx.type_of(def).instantiate_identity().skip_norm_wip();
+                let plain = !self.tcx.is_mutable_static(def)
+                    && !self.tcx.is_thread_local_static(def)
+                    && sty.is_freeze(self.tcx, TypingEnv::fully_monomorphized());
+                if plain && depth < 3 {
+                    if let Ok(a) = self.tcx.eval_static_initializer(def) {
+                        let a = a.inner();
+                        let bytes = a.inspect_with_uninit_and_ptr_outside_interpreter(0..a.len());
+                        let mut hex = String::with_capacity(bytes.len() * 2);
+                        for b in bytes {
+                            let _ = write!(hex, "{:02x}", b);
+                        }
+                        if a.provenance().ptrs().is_empty() {
+                            f.push(("bytes", jstr(hex)));
+                            f.push(("immutable", J::Bool(true)));
+                        }
+                    }
+                }
+                jobj(f)
+            }
             Some(GlobalAlloc::Function { instance }) => jobj(vec![(
                 "fnptr",
                 jstr(self.path_args(instance.def_id(), instance.args)),
